@@ -47,7 +47,7 @@ CHECK = {
          'HashMap iteration order): parse(to_args m) = m; for any meta the plain encoder can express, whatever its range lists look like (BdMeta), '
          'parse(to_args m) = compacted m and, for any lossless codec, parse(to_compressed_args m) ≃ compacted m: both '
          'encodings decode to the same compacted value (the compressed branch normalises since fix 23e5d8f); parse_repl_meta(encode_repl_meta m) = m; a MigrationTaskMeta survives '
-         'join(" ")/split(\' \')/from_strings and SwitchArg its command; the descriptor reported for any stored migration entry — by the source (MIGRATING) or the destination (IMPORTING) proxy — is accepted by commit_migration and commits exactly that migration, in every state of every bounded broker run (C17_task_commit, over the broker model with C10/C01 lemmas), tag None is refused. Proved for every token list: whatever parse '
+         'join(" ")/split(\' \')/from_strings and SwitchArg its command; the descriptor reported for any stored migration entry — by the source (MIGRATING) or the destination (IMPORTING) proxy — is accepted by commit_migration and commits exactly that migration, in every state of every bounded broker run (C17_task_commit, over the broker model with C10/C01 lemmas), tag None is refused. A range token that is not start-end (or a list that ends early) is never skipped: RangeList::parse answers None, in every tag form, and the SETCLUSTER message / task descriptor is rejected (C17_reject_damaged_*). Proved for every token list: whatever parse '
          'accepts is a well-formed value whose own encoding decodes to exactly it (no misparse), truncation inside a '
          'local or peer group, non-numeric epochs/counts, bad tags, bad range tokens and unknown section words are '
          'rejected; RangeList::compact never hits its expect()s and is idempotent. Finding F8 (from_resp / '
@@ -55,7 +55,7 @@ CHECK = {
          'filter and the full statement for the repaired one. Every run drives the real to_args / to_compressed_args / '
          'parse / from_resp / encode_repl_meta / ReplicatorMeta::from_resp / MigrationTaskMeta / SwitchArg / '
          'parse_switch_command / MigrationStateRespChecker on generated values and on all single-token deletions plus '
-         'sampled corruptions, and compares verdict and value with the model line by line; a commit leg builds a real MetaStore with pending migrations (scale-out, scale-down, failover in between), serves every proxy (real get_proxy_by_address), takes each tagged slot range through the INFOMGR string and the real coordinator parser into the real commit_migration from both sides (each migration accepted exactly once, second report MIGRATION_TASK_NOT_FOUND), with the full store compared after every step.',
+         'sampled corruptions, and compares verdict and value with the model line by line; a commit leg builds a real MetaStore with pending migrations (scale-out, scale-down, failover in between), serves every proxy (real get_proxy_by_address), takes each tagged slot range through the INFOMGR string and the real coordinator parser into the real commit_migration from both sides (each migration accepted exactly once, second report MIGRATION_TASK_NOT_FOUND), with the full store compared after every step; and an implementation-only oracle damages ONE range token (or cuts the list) of every real plain SETCLUSTER vector and task descriptor, at every position class, and requires an error.',
  'note': 'Trusted: Lean kernel; hand transliteration (checked differentially each run); generated constants; the Codec '
          'hypothesis; Unicode case tables (swept against Rust each run). Not covered: the executor-side INFOMGR producer (mirrored).',
 }
